@@ -22,6 +22,10 @@ from .loader import norm, target_names
 from .absexpr import ExprMixin
 
 MAX_DEPTH = 40
+# documented kinds of optional tuning parameters (used only in context-free activations)
+PARAM_KIND_TABLE = {
+    "bits": ("int", "none"),       # bit width: a public Python int, default None -> global bitlength
+}
 
 
 class Frame:
@@ -56,6 +60,8 @@ class Interp(ExprMixin):
         self.lc_taint = {}           # key -> dict
         self.tainted_loops = {}
         self.public_loops = {}
+        self.param_hints = {}
+        self.wire_choices = {}
         self.backend_attrs = {}
         self.call_records = {}
         self.div_sites = {}
@@ -117,6 +123,13 @@ class Interp(ExprMixin):
                 d = fi.param_default(p)
                 if d is not None and not star:
                     env[p] = self.eval_default(fi, d)
+                elif d is not None and star and (fi.fq, p) in self.param_hints and "?" not in self.param_hints[(fi.fq, p)].kind:
+                    # optional tuning parameter (bits, check, constrain ...): default joined with the kinds passed in-repo
+                    h = self.param_hints[(fi.fq, p)]
+                    dv = self.eval_default(fi, d)
+                    env[p] = V(h.kind | dv.kind, h.taint)
+                elif star and p in PARAM_KIND_TABLE and d is not None:
+                    env[p] = V(frozenset(PARAM_KIND_TABLE[p]))
                 elif i == 0 and fi.cls is not None and not fi.is_staticmethod:
                     k = CLASS_KIND.get(fi.cls.fq)
                     if fi.is_classmethod:
@@ -139,6 +152,12 @@ class Interp(ExprMixin):
             env[na.vararg.arg] = listof(el if el is not None else unknown(), "tuple")
         if na.kwarg:
             env[na.kwarg.arg] = V("dict")
+        if not star:
+            for i, p in enumerate(pos):
+                if fi.param_default(p) is not None and (i < len(a) or p in kwargs):
+                    v_ = env[p]
+                    old = self.param_hints.get((fi.fq, p))
+                    self.param_hints[(fi.fq, p)] = V(v_.kind | (old.kind if old else frozenset()), v_.taint or bool(old and old.taint))
         base = not any(v.taint for v in env.values())
         key = (fi.fq, tuple((p, env[p].key()) for p in sorted(env)), id(closure_env) if closure_env else 0)
         if key in self.memo:
@@ -197,8 +216,11 @@ class Interp(ExprMixin):
                     if isinstance(fi.node, ast.Lambda):
                         continue
                     self.analyze_base(fi)
-            if not self.global_taint_changed and before == self._globals_fingerprint():
+            hints_now = sorted((k, tuple(sorted(v.kind))) for k, v in self.param_hints.items())
+            if not self.global_taint_changed and before == self._globals_fingerprint() and _round >= 1 \
+                    and hints_now == getattr(self, "_hints_prev", None):
                 break
+            self._hints_prev = hints_now
             self.memo.clear()
             self.tainted_alts.clear()
             self.raise_paths.clear()
@@ -208,6 +230,7 @@ class Interp(ExprMixin):
             self.callsites.clear()
             self.call_records.clear()
             self.div_sites.clear()
+            self.wire_choices.clear()
 
     def _globals_fingerprint(self):
         out = []
@@ -308,6 +331,8 @@ class Interp(ExprMixin):
         t, v = self.eval(s.value, fr)
         if fr.pc_taint and not v.taint and v.kind <= (INTLIKE | frozenset(["str", "none"])):
             v = v.with_taint(True)
+        if fr.pc_taint and fr.fi is not None and fr.base and _wireish(v):
+            self.record_wire_choice(fr, "ret", None, s, s.value)
         fr.rets.append(v)
         return concat(t, RET)
 
@@ -386,6 +411,9 @@ class Interp(ExprMixin):
 
     def st_Assign(self, s, fr):
         t, v = self.eval(s.value, fr)
+        if fr.pc_taint and fr.fi is not None and fr.base and _wireish(v) and len(s.targets) == 1 \
+                and isinstance(s.targets[0], ast.Name):
+            self.record_wire_choice(fr, "assign", s.targets[0].id, s, s.value)
         for tg in s.targets:
             t = concat(t, self.bind(tg, v, fr, None))
         return t
@@ -467,6 +495,14 @@ class Interp(ExprMixin):
             else:
                 out[k] = va if va is vb else join(va, vb)
         return out
+
+    def record_wire_choice(self, fr, kind, name, stmt, value):
+        """A wire-valued result produced under value-dependent control (for R-C06-5)."""
+        tainted = sorted(n for n, v in fr.env.items() if isinstance(v, V) and v.taint and not _wireish(v))
+        gov = [(id(c), norm(c), pol) for c, pol, t in fr.conds if t]
+        key = (fr.fq, stmt.lineno, stmt.col_offset)
+        self.wire_choices[key] = {"fi": fr.fi, "kind": kind, "name": name, "stmt": stmt, "value": value,
+                                  "tainted_names": tainted, "gov": gov}
 
     def record_tainted_alt(self, fr, node, kind, test, tag):
         self.alt_info[tag] = {"fi": fr.fi, "module": fr.module, "node": node, "kind": kind, "test": test}
@@ -616,6 +652,19 @@ class Interp(ExprMixin):
             fr.env = saved
             tree = b if tree is None else alt((fr.fq, c.pattern.lineno, 0, "case"), False, tree, b)
         return concat(t, tree or END)
+
+
+WIREKINDS = frozenset(["LC", "LCB", "LCF", "BLC"])
+
+
+def _wireish(v):
+    if not v.kind:
+        return False
+    if v.kind <= WIREKINDS:
+        return True
+    if v.kind <= frozenset(["list", "tuple"]) and v.elem is not None and v.elem.kind and v.elem.kind <= WIREKINDS:
+        return True
+    return False
 
 
 def _as_load(t):
